@@ -558,6 +558,8 @@ MUTANTS = [
     dict(name="R3 writer iterates the set directly", module="diplotype", expect="C14.R3",
          old="            for m in sorted(mutations):\n                fn = gene.get_functional(m, False)",
          new="            for m in mutations:\n                fn = gene.get_functional(m, False)"),
+    dict(name="R3 VCF records written in set order", module="diplotype", expect="C14.R3",
+         old="    for m in sorted(all_mutations):", new="    for m in all_mutations:"),
     dict(name="R4 stage reads back from the debug store", module="cn", expect="C14.R4",
          old="    if not result:\n        log.debug(\"[cn] solution= []\")",
          new="    if json[gene.name][\"cn\"][\"data\"] and not result:\n        log.debug(\"[cn] solution= []\")"),
